@@ -2,6 +2,7 @@ import NeumannModel.Common.Proto
 import NeumannModel.Parse.Model
 import NeumannModel.Parse.Select
 import NeumannModel.Parse.Nest
+import NeumannModel.Parse.Full
 /-
   Line-protocol driver for the expression-parser model (C15).
 
@@ -31,6 +32,28 @@ import NeumannModel.Parse.Nest
                                     SRC = `-` | `c<k>` | Q, WHR = `-` | E, E = `n<k>` | `c<k>` | `*` | `()` |
                                     `(neg E)` | `(add L R)` | `(exists Q)` | `(in E Q)` | `(notin E Q)` |
                                     `(in E)` | `(in E V)` …; errors / `outside` as for `sel`
+            full expr|stmt <ftok>*  model of the COMPLETE expression grammar (Full.lean): `expr` =
+                                    neumann_parser::parse_expr, `stmt` = an expression position of the
+                                    statement parser.  ftok = `l<k>` (Integer/Float/String/TRUE/FALSE literal)
+                                    `null` `i<k>` (identifier) `k<k>` (contextual keyword) `g<k>` (COUNT SUM AVG
+                                    MIN MAX) add sub mul … `(` `)` `[` `]` `,` `.` `not` `bang` `tilde` `is` `in`
+                                    `between` `like` `case` `when` `then` `else` `end` `distinct` `exists`
+                                    `select` `cast` `other`; answers `ok E` with E = `l<k>` | `null` | `i<k>` |
+                                    `k<k>` | `*` | `()` | `(tuple E E …)` | `(neg E)` | `(add L R)` | `(isnull E)` |
+                                    `(isnotnull E)` | `(in E V…)` | `(notin E V…)` | `(between E LO HI)` |
+                                    `(notbetween …)` | `(like E P)` | `(notlike E P)` | `(qual E @i<k>)` |
+                                    `(qualwild @i<k>|@k<k>)` | `(call @i<k>|@g<k> [distinct] A…)` | `(array V…)` |
+                                    `(case OP|- (when C R)… else=E|-)`; `err too_deep <tokidx>` | `err eof <exp>` |
+                                    `err unexpected <exp> <tokidx>` | `err invalid qualwild|case_no_when|exists
+                                    <tokidx>` | `outside`
+            fprint min|full|all FT  token list of Full.printWith; FT in polish notation: `l<k>` `null` `i<k>`
+                                    `k<k>` `wild` `unit` | `tuple <n≥2> FT…` | `un <u> FT` | `bin <o> FT FT` |
+                                    `isnull <0|1> FT` | `in <0|1> <n> FT FT…` | `between <0|1> FT FT FT` |
+                                    `like <0|1> FT FT` | `qual <k> FT` | `qualwild <0|1> <k>` |
+                                    `call i<k>|g<k> <0|1> <n> FT…` | `array <n> FT…` |
+                                    `case <0|1> <n≥1> <0|1> [FT] (FT FT)… [FT]`
+            fframes min|full|all FT nesting depth the real parser needs for that print
+            fsexp FT                the answer `full` gives for a tree (the expected parse of its prints)
 -/
 open Neumann Neumann.Proto Neumann.Parse
 
@@ -224,9 +247,249 @@ def showNestRes (n : Nat) : Sel.Res Nest.Q → String
   | .error .fuel => "err fuel"
   | .outside => "outside"
 
+/-! ### complete expression grammar (`Neumann.Parse.Full`) -/
+
+def readFTok (s : String) : Option Full.Tok :=
+  match s with
+  | "null" => some .null
+  | "(" => some .lparen
+  | ")" => some .rparen
+  | "[" => some .lbracket
+  | "]" => some .rbracket
+  | "," => some .comma
+  | "." => some .dot
+  | "not" => some .notKw
+  | "bang" => some .bang
+  | "tilde" => some .tilde
+  | "is" => some .isKw
+  | "in" => some .inKw
+  | "between" => some .betweenKw
+  | "like" => some .likeKw
+  | "case" => some .caseKw
+  | "when" => some .whenKw
+  | "then" => some .thenKw
+  | "else" => some .elseKw
+  | "end" => some .endKw
+  | "distinct" => some .distinctKw
+  | "exists" => some .existsKw
+  | "select" => some .selectKw
+  | "cast" => some .castKw
+  | "other" => some .other
+  | _ => match readBin s with
+    | some o => some (.op o)
+    | none => match readPfx 'l' s with
+      | some k => some (.lit k)
+      | none => match readPfx 'i' s with
+        | some k => some (.ident k)
+        | none => match readPfx 'k' s with
+          | some k => some (.kw k)
+          | none => (readPfx 'g' s).map Full.Tok.agg
+
+def showFTok : Full.Tok → String
+  | .lit n => s!"l{n}" | .null => "null" | .ident n => s!"i{n}" | .kw n => s!"k{n}" | .agg n => s!"g{n}"
+  | .op o => binName o
+  | .lparen => "(" | .rparen => ")" | .lbracket => "[" | .rbracket => "]" | .comma => "," | .dot => "."
+  | .notKw => "not" | .bang => "bang" | .tilde => "tilde"
+  | .isKw => "is" | .inKw => "in" | .betweenKw => "between" | .likeKw => "like"
+  | .caseKw => "case" | .whenKw => "when" | .thenKw => "then" | .elseKw => "else" | .endKw => "end"
+  | .distinctKw => "distinct" | .existsKw => "exists" | .selectKw => "select" | .castKw => "cast"
+  | .other => "other"
+
+def showCallee : Full.Callee → String
+  | .fn n => s!"@i{n}"
+  | .agg n => s!"@g{n}"
+
+mutual
+def showFE : Full.E → String
+  | .lit n => s!"l{n}"
+  | .null => "null"
+  | .ident n => s!"i{n}"
+  | .kwIdent n => s!"k{n}"
+  | .wildcard => "*"
+  | .unit => "()"
+  | .tuple a b rest => "(tuple " ++ showFE a ++ " " ++ showFE b ++ showFEL rest ++ ")"
+  | .un u e => "(" ++ unName u ++ " " ++ showFE e ++ ")"
+  | .bin l o r => "(" ++ binName o ++ " " ++ showFE l ++ " " ++ showFE r ++ ")"
+  | .isNull e neg => (if neg then "(isnotnull " else "(isnull ") ++ showFE e ++ ")"
+  | .inList e neg items => (if neg then "(notin " else "(in ") ++ showFE e ++ showFEL items ++ ")"
+  | .between e neg lo hi =>
+      (if neg then "(notbetween " else "(between ") ++ showFE e ++ " " ++ showFE lo ++ " " ++ showFE hi ++ ")"
+  | .like e neg p => (if neg then "(notlike " else "(like ") ++ showFE e ++ " " ++ showFE p ++ ")"
+  | .qual e n => "(qual " ++ showFE e ++ s!" @i{n})"
+  | .qualWild kw n => if kw then s!"(qualwild @k{n})" else s!"(qualwild @i{n})"
+  | .call f d args => "(call " ++ showCallee f ++ (if d then " distinct" else "") ++ showFEL args ++ ")"
+  | .array items => "(array" ++ showFEL items ++ ")"
+  | .case operand c r rest els =>
+      "(case " ++ showFOE operand ++ " (when " ++ showFE c ++ " " ++ showFE r ++ ")" ++ showFWL rest
+        ++ " else=" ++ showFOE els ++ ")"
+/-- every item preceded by a blank -/
+def showFEL : Full.EL → String
+  | .nil => ""
+  | .cons e l => " " ++ showFE e ++ showFEL l
+def showFWL : Full.WL → String
+  | .nil => ""
+  | .cons c r l => " (when " ++ showFE c ++ " " ++ showFE r ++ ")" ++ showFWL l
+def showFOE : Full.OE → String
+  | .none => "-"
+  | .some e => showFE e
+end
+
+def showFExpect : Full.Expect → String
+  | .expression => "expression" | .lparen => "(" | .rparen => ")" | .rbracket => "]" | .null => "NULL"
+  | .identifier => "identifier" | .andKw => "AND" | .thenKw => "THEN" | .endKw => "END"
+  | .endOfExpr => "end_of_expression"
+
+def showInvalid : Full.Invalid → String
+  | .qualWild => "qualwild" | .caseNoWhen => "case_no_when" | .existsExpr => "exists"
+
+def showFullRes (n : Nat) : Full.Res → String
+  | .ok e => "ok " ++ showFE e
+  | .error (.tooDeep rem) => s!"err too_deep {n - rem}"
+  | .error (.eof x) => "err eof " ++ showFExpect x
+  | .error (.unexpected x rem) => s!"err unexpected {showFExpect x} {n - rem}"
+  | .error (.invalid w rem) => s!"err invalid {showInvalid w} {n - rem}"
+  | .error .fuel => "err fuel"
+  | .outside => "outside"
+
+def readMode : String → Option Full.Mode
+  | "expr" => some .expr | "stmt" => some .stmt | _ => none
+
+def readBool : String → Option Bool
+  | "0" => some false | "1" => some true | _ => none
+
+def elOfList : List Full.E → Full.EL
+  | [] => .nil
+  | e :: l => .cons e (elOfList l)
+
+def wlOfList : List (Full.E × Full.E) → Full.WL
+  | [] => .nil
+  | (c, r) :: l => .cons c r (wlOfList l)
+
+mutual
+/-- polish-notation reader for `Full.E` -/
+def readFE : Nat → List String → Option (Full.E × List String)
+  | 0, _ => none
+  | _, [] => none
+  | _, "null" :: r => some (.null, r)
+  | _, "wild" :: r => some (.wildcard, r)
+  | _, "unit" :: r => some (.unit, r)
+  | f+1, "tuple" :: n :: r =>
+    match n.toNat? with
+    | some k =>
+      (match readFEs f k r with
+       | some (a :: b :: rest, r') => some (.tuple a b (elOfList rest), r')
+       | _ => none)
+    | none => none
+  | f+1, "un" :: u :: r =>
+    match readUn u, readFE f r with
+    | some u, some (e, r') => some (.un u e, r')
+    | _, _ => none
+  | f+1, "bin" :: o :: r =>
+    match readBin o, readFEs f 2 r with
+    | some o, some ([l, rr], r') => some (.bin l o rr, r')
+    | _, _ => none
+  | f+1, "isnull" :: b :: r =>
+    match readBool b, readFE f r with
+    | some b, some (e, r') => some (.isNull e b, r')
+    | _, _ => none
+  | f+1, "in" :: b :: n :: r =>
+    match readBool b, n.toNat? with
+    | some b, some k =>
+      (match readFEs f (k + 1) r with
+       | some (x :: items, r') => some (.inList x b (elOfList items), r')
+       | _ => none)
+    | _, _ => none
+  | f+1, "between" :: b :: r =>
+    match readBool b, readFEs f 3 r with
+    | some b, some ([x, lo, hi], r') => some (.between x b lo hi, r')
+    | _, _ => none
+  | f+1, "like" :: b :: r =>
+    match readBool b, readFEs f 2 r with
+    | some b, some ([x, p], r') => some (.like x b p, r')
+    | _, _ => none
+  | f+1, "qual" :: n :: r =>
+    match n.toNat?, readFE f r with
+    | some n, some (e, r') => some (.qual e n, r')
+    | _, _ => none
+  | _, "qualwild" :: b :: n :: r =>
+    match readBool b, n.toNat? with
+    | some b, some n => some (.qualWild b n, r)
+    | _, _ => none
+  | f+1, "call" :: c :: d :: n :: r =>
+    let callee : Option Full.Callee := match readPfx 'i' c with
+      | some k => some (.fn k)
+      | none => (readPfx 'g' c).map Full.Callee.agg
+    match callee, readBool d, n.toNat? with
+    | some c, some d, some k =>
+      (match readFEs f k r with
+       | some (args, r') => some (.call c d (elOfList args), r')
+       | none => none)
+    | _, _, _ => none
+  | f+1, "array" :: n :: r =>
+    match n.toNat? with
+    | some k =>
+      (match readFEs f k r with
+       | some (items, r') => some (.array (elOfList items), r')
+       | none => none)
+    | none => none
+  | f+1, "case" :: ho :: n :: he :: r =>
+    match readBool ho, n.toNat?, readBool he with
+    | some ho, some k, some he =>
+      (match readFEs f ((if ho then 1 else 0) + 2 * k + (if he then 1 else 0)) r with
+       | some (parts, r') =>
+         let operand : Full.OE := if ho then (match parts.head? with | some e => .some e | none => .none) else .none
+         let parts1 := if ho then parts.tail else parts
+         let els : Full.OE := if he then (match parts1.getLast? with | some e => .some e | none => .none) else .none
+         let ws := if he then parts1.dropLast else parts1
+         let rec pairs : List Full.E → List (Full.E × Full.E)
+           | c :: rr :: l => (c, rr) :: pairs l
+           | _ => []
+         (match pairs ws with
+          | (c, rr) :: rest => some (.case operand c rr (wlOfList rest) els, r')
+          | [] => none)
+       | none => none)
+    | _, _, _ => none
+  | _, w :: r =>
+    match readPfx 'l' w with
+    | some k => some (.lit k, r)
+    | none => match readPfx 'i' w with
+      | some k => some (.ident k, r)
+      | none => (readPfx 'k' w).map fun k => (Full.E.kwIdent k, r)
+/-- `k` trees in a row -/
+def readFEs : Nat → Nat → List String → Option (List Full.E × List String)
+  | 0, _, _ => none
+  | _, 0, r => some ([], r)
+  | f+1, k+1, r =>
+    match readFE f r with
+    | some (e, r1) =>
+      (match readFEs f k r1 with
+       | some (l, r2) => some (e :: l, r2)
+       | none => none)
+    | none => none
+end
+
+def readFTree (ws : List String) : Option Full.E :=
+  match readFE (2 * ws.length + 2) ws with
+  | some (e, []) => some e
+  | _ => none
+
+def fextraOf : String → Option (Full.E → Bool)
+  | "min" => some (fun _ => false)
+  | "full" => some Full.isCompound
+  | "all" => some (fun _ => true)
+  | _ => none
+
 def parseStep (_ : Unit) (line : String) : Unit × String :=
   let bad := ((), "bad-op")
   match words line with
+  | "full" :: mode :: ws => match readMode mode, ws.mapM readFTok with
+      | some md, some ts => ((), showFullRes ts.length (Full.parse md ts)) | _, _ => bad
+  | "fprint" :: mode :: ws => match fextraOf mode, readFTree ws with
+      | some x, some e => ((), " ".intercalate ((Full.printWith x e).map showFTok)) | _, _ => bad
+  | "fframes" :: mode :: ws => match fextraOf mode, readFTree ws with
+      | some x, some e => ((), toString (Full.framesWith x e)) | _, _ => bad
+  | "fsexp" :: ws => match readFTree ws with
+      | some e => ((), "ok " ++ showFE e) | none => bad
   | "nest" :: ws => match ws.mapM readNTok with
       | some ts => ((), showNestRes ts.length (Nest.parseStmt ts)) | none => bad
   | "sel" :: ws => match ws.mapM readSTok with
